@@ -259,7 +259,12 @@ def container_argument_mutation(check, repo):
                 if isinstance(x, ast.Assign):
                     for t in x.targets:
                         if isinstance(t, ast.Name) and t.id in params:
-                            rebound[t.id] = min(rebound.get(t.id, 10 ** 9), x.lineno)
+                            # a re-binding protects the caller's object only if it happens on every path (a statement of
+                            # the function body itself) or makes a copy of the parameter; `if p is None: p = {}` does not
+                            top = getattr(x, "_parent", None) is f
+                            copies = isinstance(x.value, ast.Call) and any(isinstance(a, ast.Name) and a.id == t.id for a in ast.walk(x.value))
+                            if top or copies:
+                                rebound[t.id] = min(rebound.get(t.id, 10 ** 9), x.lineno)
             bad = []
             for x in walk_no_nested(f):
                 name = None
